@@ -207,9 +207,27 @@ def _nul(ck: Checker) -> None:
     for t in g.nodes.values():
         e = t.ast
         if t.kind == "test" and isinstance(e, ast.Compare) and isinstance(e.ops[0], ast.In) and isinstance(e.left, ast.Constant) and e.left.value == b"\x00" and norm(e.comparators[0]) == fn.pos_params[0]:
-            r = g.reach([d for lab, d in t.succ if lab == "T"])
+            tsucc = [d for lab, d in t.succ if lab == "T"]
+            r = g.reach(tsucc, include_start=True)
             rets = [g.nodes[i] for i in r if g.nodes[i].kind == "stmt" and isinstance(g.nodes[i].ast, ast.Return)]
-            ok = bool(rets) and all(isinstance(x.ast.value, ast.Constant) and x.ast.value.value is False for x in rets)
+
+            def is_false_on_nul(x) -> bool:
+                v = x.ast.value
+                if isinstance(v, ast.Constant):
+                    return v.value is False
+                if not isinstance(v, ast.Name):
+                    return False
+                # a result variable: every definition that can still be current at this return after the
+                # NUL edge was taken assigns the constant False
+                from ..an import node_defines, reaching_defs
+
+                defs = [d for d in reaching_defs(g, x.id, v.id) if d.id in r]
+                unset = x.id in g.reach(tsucc, skip_node=lambda y: node_defines(y, v.id), include_start=False) or any(node_defines(g.nodes[s_], v.id) is False and s_ == x.id for s_ in tsucc)
+                if unset and not all(node_defines(g.nodes[s_], v.id) for s_ in tsucc):
+                    defs += [d for d in reaching_defs(g, x.id, v.id) if d.id not in r]
+                return bool(defs) and all(isinstance(getattr(d.ast, "value", None), ast.Constant) and d.ast.value.value is False for d in defs)
+
+            ok = bool(rets) and all(is_false_on_nul(x) for x in rets)
             # and the test dominates the ratio computation
     # the non-text share is measured against the block's own length
     okr = False
